@@ -27,6 +27,9 @@ structure PairD where
   pktRecv : Nat
   bytesSent : Nat
   bytesRecv : Nat
+  /-- current round-trip time (ns) and time of the last matched response (ms), `t<rtt>/<ms|->` -/
+  rtt : Nat := 0
+  lastResp : Option Nat := none
   deriving Repr, Inhabited, BEq
 
 structure RemD where
@@ -70,6 +73,9 @@ structure AgD where
   bs : Nat := 0
   br : Nat := 0
   pend : Nat := 0
+  /-- `ar=<ms|->/<n>`: time of the last automatic renomination, number of values drawn from the counter generator -/
+  lastAuto : Option Nat := none
+  nomDrawn : Nat := 0
   deriving Repr, Inhabited
 
 inductive DgKind where
@@ -125,18 +131,28 @@ def flags? (s : String) : Option (Bool × Bool × Option Nat) :=
     | _, _, _ => none
   | _ => none
 
+/-- `t<rtt ns>/<last response ms|->` -/
+def rttField? (s : String) : Option (Nat × Option Nat) :=
+  if !s.startsWith "t" then none else
+  match (s.drop 1).toString.splitOn "/" with
+  | [r, l] =>
+    match r.toNat?, optNat? l with
+    | some r, some l => some (r, l)
+    | _, _ => none
+  | _ => none
+
 def parsePair (s : String) : Option PairD :=
   match s.splitOn ":" with
-  | [id, ends, rty, st, fl, c, p, q, k] =>
+  | [id, ends, rty, st, fl, c, p, q, k, t] =>
     match id.toNat?, (ends.splitOn ">").map String.toNat?, rty.toNat?, flags? fl,
-          (c.drop 1).toString.toNat?, (p.drop 1).toString.toNat?, quad? q, quad? k with
-    | some id, [some la, some ra], some rty, some (n, d, v), some c, some p, some (q1, q2, q3, q4), some (k1, k2, k3, k4) =>
+          (c.drop 1).toString.toNat?, (p.drop 1).toString.toNat?, quad? q, quad? k, rttField? t with
+    | some id, [some la, some ra], some rty, some (n, d, v), some c, some p, some (q1, q2, q3, q4), some (k1, k2, k3, k4), some (rtt, lr) =>
       if st == "w" || st == "i" || st == "f" || st == "s" then
         some { id := id, la := la, ra := ra, rty := rty, st := st, nom := n, defr := d, dval := v, cnt := c, prio := p,
                reqSent := q1, reqRecv := q2, respSent := q3, respRecv := q4,
-               pktSent := k1, pktRecv := k2, bytesSent := k3, bytesRecv := k4 }
+               pktSent := k1, pktRecv := k2, bytesSent := k3, bytesRecv := k4, rtt := rtt, lastResp := lr }
       else none
-    | _, _, _, _, _, _, _, _ => none
+    | _, _, _, _, _, _, _, _, _ => none
   | _ => none
 
 /-- tcptype mark: `a` active, `p` passive, `s` simultaneous-open → 1, 2, 3 -/
@@ -190,21 +206,31 @@ def listOf (s : String) : List String := if s.isEmpty then [] else s.splitOn ","
 def kvVal? (s : String) (pre : String) : Option String :=
   if s.startsWith pre then some (s.drop pre.length).toString else none
 
+/-- `<ms|->/<n>` -/
+def autoField? (s : String) : Option (Option Nat × Nat) :=
+  match s.splitOn "/" with
+  | [t, n] =>
+    match optNat? t, n.toNat? with
+    | some t, some n => some (t, n)
+    | _, _ => none
+  | _ => none
+
 def parseAgent (raw : String) : Option AgD :=
   match raw.splitOn ";" with
-  | [st, ctl, sel, p, r, l, cs, sp, ca, bs, br, pend] =>
+  | [st, ctl, sel, p, r, l, cs, sp, ca, bs, br, pend, ar] =>
     match kvVal? st "st=", kvVal? ctl "ctl=", (kvVal? sel "sel=").bind optNat?, bracket? p "P[", bracket? r "R[", bracket? l "L[",
           bracket? cs "cs[", bracket? sp "sp[", bracket? ca "ca[",
-          (kvVal? bs "bs=").bind String.toNat?, (kvVal? br "br=").bind String.toNat?, (kvVal? pend "pend=").bind String.toNat? with
-    | some st, some ctl, some sel, some p, some r, some l, some cs, some sp, some ca, some bs, some br, some pend =>
+          (kvVal? bs "bs=").bind String.toNat?, (kvVal? br "br=").bind String.toNat?, (kvVal? pend "pend=").bind String.toNat?,
+          (kvVal? ar "ar=").bind autoField? with
+    | some st, some ctl, some sel, some p, some r, some l, some cs, some sp, some ca, some bs, some br, some pend, some (la, nd) =>
       match (listOf p).mapM parsePair, (listOf r).mapM parseRem, (listOf l).mapM parseLoc with
       | some ps, some rs, some ls =>
         if ctl == "0" || ctl == "1" then
           some { raw := raw, st := st, ctl := ctl == "1", sel := sel, pRaw := p, rRaw := r, lRaw := l, pairs := ps, rems := rs, locs := ls,
-                 cs := listOf cs, sp := listOf sp, ca := listOf ca, bs := bs, br := br, pend := pend }
+                 cs := listOf cs, sp := listOf sp, ca := listOf ca, bs := bs, br := br, pend := pend, lastAuto := la, nomDrawn := nd }
         else none
       | _, _, _ => none
-    | _, _, _, _, _, _, _, _, _, _, _, _ => none
+    | _, _, _, _, _, _, _, _, _, _, _, _, _ => none
   | _ => none
 
 def parseKey (s : String) : Option String :=
